@@ -188,6 +188,8 @@ def monitor_call(ev, cold=False):
             return "openat2 without RESOLVE_NO_MAGICLINKS"
         if not (rs & RES_INROOT or (rs & RES_BENEATH and rs & RES_XDEV)):
             return "openat2 not confined (IN_ROOT or BENEATH|NO_XDEV)"
+        if not (ev["flags"] & (O_NOCTTY | O_PATH | O_DIRECTORY)):
+            return "openat2 without O_NOCTTY (a terminal opened this way becomes the controlling terminal)"
         return None
     if c == "readlinkat":
         return None if fd >= 0 and path == b"" else "readlinkat with a path"
